@@ -88,9 +88,9 @@ impl Check for Controller {
     }
     fn runs(&self, tier: Tier) -> u64 {
         if tier == Tier::Quick {
-            500
+            15000
         } else {
-            40_000
+            200000
         }
     }
     fn components(&self) -> serde_json::Value {
